@@ -497,10 +497,12 @@ func init() {
 		Rule: "two kinds of cases. (a) cell level: (grammar with precedence, K map-order schedules); operator tables (1-6 levels, random associativity, prefix operators via %prec), textbook conflict grammars, random CFGs with random %left/%right/%nonassoc and %prec; for every table cell with exactly two candidate actions (taken from the same run's transitions and lookaheads) the dense-table entry is compared with the documented resolution. (b) expression level: batches of 6 operator tables compiled in all 5 variants; random expressions (depth <= 5) are parsed and the returned fully parenthesised string / the syntax error and its position are compared with a precedence-climbing reference that only knows the declarations. distinct_nontrivial = distinct grammars.",
 		NumCases: func(ctx *Ctx) int { return c04batches(ctx) + fixedCases(ctx, 6000, 60000) },
 		Gen: func(ctx *Ctx, i int) *Input {
-			if nb := c04batches(ctx); i < nb {
-				return genC04b(ctx, i)
+			if isB, k := mixCases(c04batches(ctx), fixedCases(ctx, 6000, 60000), i); isB {
+				in := genC04b(ctx, k)
+				in.Index = i
+				return in
 			} else {
-				in := genC04(ctx, i-nb)
+				in := genC04(ctx, k)
 				in.Index = i
 				return in
 			}
